@@ -356,12 +356,12 @@ theorem clauseOn_eq (db : Str) : clauseOn db = onText db := by
 prints nothing) one token is looked at and pushed back. -/
 theorem parseOnDb_print (s : PState) (db k : Str) (hex : Expressible db) (hk : IdentEnd db k)
     (hs : s.Before (onText db ++ k)) :
-    ∃ sK, sK.Before k ∧ Returns parseOnDb s db sK (db == []) [.ON] := by
+    ∃ sK, sK.Before k ∧ ReturnsAt parseOnDb s db sK (db == []) [.ON] := by
   unfold onText at hs
   by_cases hdb : db = []
   · subst hdb
     refine ⟨s, hs, ?_⟩
-    unfold Returns
+    unfold ReturnsAt
     rw [if_pos (by simp)]
     intro lx s' hp hne
     unfold parseOnDb
@@ -373,7 +373,7 @@ theorem parseOnDb_print (s : PState) (db k : Str) (hex : Expressible db) (hk : I
       (scansAs_kw .ON _ (by decide +kernel) (WordEnd.blank _))
     obtain ⟨s2, h2, b2⟩ := parseIdent_piece s1 [' '] (qi db) k db Gap.blank b1.around (scansAs_ident db k hex hk)
     refine ⟨s2, b2, ?_⟩
-    unfold Returns
+    unfold ReturnsAt
     rw [if_neg (by simpa using hdb)]
     unfold parseOnDb
     rw [P.run_bind _ _ s true s1 h1]
@@ -388,10 +388,10 @@ read back as the empty name). -/
 theorem showRetentionPolicies_print_parse (fuel : Nat) (s : PState) (db k : Str) (hex : Expressible db)
     (hk : IdentEnd db k) (hs : s.Before (onText db ++ k)) :
     ∃ sK, sK.Before k ∧
-      Returns (runHandler fuel .parseShowRetentionPoliciesStatement) s (.showRetentionPolicies db) sK (db == []) [.ON] := by
+      ReturnsAt (runHandler fuel .parseShowRetentionPoliciesStatement) s (.showRetentionPolicies db) sK (db == []) [.ON] := by
   obtain ⟨sK, hb, hr⟩ := parseOnDb_print s db k hex hk hs
   refine ⟨sK, hb, ?_⟩
-  unfold Returns at hr ⊢
+  unfold ReturnsAt at hr ⊢
   simp only [runHandler, parseShowRetentionPolicies]
   split
   · next hp =>
@@ -422,7 +422,7 @@ theorem numEnd_onText (host k : Str) (hk : NumEnd k) : NumEnd (onText host ++ k)
 theorem killQuery_print_parse (fuel : Nat) (s : PState) (qid : Nat) (host k : Str) (hq : (qid : Int) ≤ maxUInt64)
     (hex : Expressible host) (hk : IdentEnd host k) (hkn : NumEnd k) (hs : s.Before (killQueryText qid host ++ k)) :
     ∃ sK, sK.Before k ∧
-      Returns (runHandler fuel .parseKillQueryStatement) s (.killQuery qid host) sK (host == []) [.ON] := by
+      ReturnsAt (runHandler fuel .parseKillQueryStatement) s (.killQuery qid host) sK (host == []) [.ON] := by
   have e : killQueryText qid host ++ k = ' ' :: (natDigits qid ++ (onText host ++ k)) := by
     simp only [killQueryText, List.append_assoc, List.cons_append]
   rw [e] at hs
@@ -430,7 +430,7 @@ theorem killQuery_print_parse (fuel : Nat) (s : PState) (qid : Nat) (host k : St
     (scansAs_nat qid _ (numEnd_onText host k hkn))
   obtain ⟨sK, hb, hr⟩ := parseOnDb_print s1 host k hex hk b1
   refine ⟨sK, hb, ?_⟩
-  unfold Returns at hr ⊢
+  unfold ReturnsAt at hr ⊢
   simp only [runHandler, parseKillQuery]
   split
   · next hp =>
@@ -533,7 +533,7 @@ theorem createUser_print_parse (fuel : Nat) (s : PState) (name pw : Str) (admin 
     (hex1 : Expressible name) (hex2 : Expressible pw) (hk : admin = true → WordEnd k)
     (hs : s.Before (createUserText name (quoteString pw) admin ++ k)) :
     ∃ sK, sK.Before k ∧
-      Returns (runHandler fuel .parseCreateUserStatement) s (.createUser name pw admin) sK (!admin) [.WITH] := by
+      ReturnsAt (runHandler fuel .parseCreateUserStatement) s (.createUser name pw admin) sK (!admin) [.WITH] := by
   have e : createUserText name (quoteString pw) admin ++ k = ' ' :: (qi name ++ ' ' :: (Token.WITH.str ++
       ' ' :: (Token.PASSWORD.str ++ ' ' :: (quoteString pw ++ (adminText admin ++ k))))) := by
     simp only [createUserText, List.append_assoc, List.cons_append]
@@ -550,7 +550,7 @@ theorem createUser_print_parse (fuel : Nat) (s : PState) (name pw : Str) (admin 
   cases admin with
   | false =>
     refine ⟨s4, by simpa [adminText] using b4, ?_⟩
-    unfold Returns
+    unfold ReturnsAt
     rw [if_pos (by simp)]
     intro lx s' hp hne
     rw [P.run_bind _ _ s name s1 h1, P.run_bind _ _ s1 () s3 h23, P.run_bind _ _ s3 pw s4 h4,
@@ -565,7 +565,7 @@ theorem createUser_print_parse (fuel : Nat) (s : PState) (name pw : Str) (admin 
     obtain ⟨s7, h7, b7⟩ := parseTokens_cons_piece s6 [' '] Token.PRIVILEGES.str k .PRIVILEGES [] [] Gap.blank b6.around
       (scansAs_kw .PRIVILEGES _ (by decide +kernel) (hk rfl))
     have h67 : (parseTokens [.ALL, .PRIVILEGES]).run s5 = .ok ((), s7) := by rw [h6, h7]; rfl
-    refine ⟨s7, b7, Returns.exact ?_⟩
+    refine ⟨s7, b7, ReturnsAt.exact ?_⟩
     rw [P.run_bind _ _ s name s1 h1, P.run_bind _ _ s1 () s3 h23, P.run_bind _ _ s3 pw s4 h4,
       P.run_bind _ _ s4 true s5 h5]
     simp only [if_true]
@@ -1402,7 +1402,7 @@ theorem stop_eof (l : List Token) (h : ∀ t ∈ l, t ≠ .EOF) : ∀ t ∈ l, N
   fun t ht => nextNot_eof t (h t ht)
 
 /-- `KILL QUERY 36 ON "host 1"`. -/
-example : ∃ sK, Returns (runHandler 10 .parseKillQueryStatement) (PState.init (killQueryText 36 "host 1".toList) [] [])
+example : ∃ sK, ReturnsAt (runHandler 10 .parseKillQueryStatement) (PState.init (killQueryText 36 "host 1".toList) [] [])
     (.killQuery 36 "host 1".toList) sK false [.ON] := by
   obtain ⟨sK, _, h⟩ := killQuery_print_parse 10 (PState.init (killQueryText 36 "host 1".toList) [] []) 36
     "host 1".toList [eofRune] (by decide) (by decide) (.of_wordEnd .eof) .eof (init_before _ (by decide +kernel))
@@ -1419,7 +1419,7 @@ example : ∃ s', (runHandler 10 .parseDropSubscriptionStatement).run
   exact ⟨s', h⟩
 
 /-- `CREATE USER "jo e" WITH PASSWORD 'it''s' WITH ALL PRIVILEGES` (password with an escaped quote). -/
-example : ∃ sK, Returns (runHandler 10 .parseCreateUserStatement)
+example : ∃ sK, ReturnsAt (runHandler 10 .parseCreateUserStatement)
     (PState.init (createUserText "jo e".toList (quoteString "it's".toList) true) [] [])
     (.createUser "jo e".toList "it's".toList true) sK false [.WITH] := by
   obtain ⟨sK, _, h⟩ := createUser_print_parse 10
@@ -1464,7 +1464,7 @@ example : crpText "1h".toList "db0".toList 5400000000000 3 3600000000000 true 0 
     " \"1h\" ON db0 DURATION 90m REPLICATION 3 SHARD DURATION 1h DEFAULT PAST LIMIT 5s".toList := by decide +kernel
 
 /-- `SHOW RETENTION POLICIES` (no database) and `SHOW STATS FOR 'runtime'` and `CREATE DATABASE "my-db"`. -/
-example : (∃ sK, Returns (runHandler 10 .parseShowRetentionPoliciesStatement) (PState.init [] [] [])
+example : (∃ sK, ReturnsAt (runHandler 10 .parseShowRetentionPoliciesStatement) (PState.init [] [] [])
       (.showRetentionPolicies []) sK true [.ON]) ∧
     (∃ s', (runHandler 10 .parseShowStatsStatement).run (PState.init (forText "runtime".toList) [] []) =
       .ok (.showStats "runtime".toList, s')) ∧
